@@ -245,7 +245,7 @@ def gen_composite_case(rng):
         Y = [[[rand_rat(rng) for _ in range(bs)] for _ in range(Gs[sl])] for bs, sl in leaves]
         xs = [[[X[l][g][c] for g in maps[sl][r] for c in range(bs)] for l, (bs, sl) in enumerate(leaves)] for r in range(P)]
         ys = [[[Y[l][g][c] for g in maps[sl][r] for c in range(bs)] for l, (bs, sl) in enumerate(leaves)] for r in range(P)]
-        return "cdot %s %s %s %s" % (kind, D, " ".join(fmt_rats(l) for v in xs for l in v), " ".join(fmt_rats(l) for v in ys for l in v))
+        return "%s %s %s %s %s" % ("cdot" if rng.random() < 0.5 else "casync", kind, D, " ".join(fmt_rats(l) for v in xs for l in v), " ".join(fmt_rats(l) for v in ys for l in v))
     # muxer: C children of one parent process
     C = rng.choice([1, 2, 2, 3, 3, 4])
     pn = [rng.randint(0, 6) for _ in range(S)]
@@ -326,9 +326,11 @@ def gen_global_case(rng):
     def type1(b):
         X = [[rand_rat(rng) for _ in range(b)] for _ in range(G)]
         return [[X[g][c] for g in m for c in range(b)] for m in maps]
-    if k < 0.24:
+    if k < 0.20:
         return "norm %d %s %s" % (bs, D, " ".join(fmt_rats(v) for v in type1(bs)))
-    if k < 0.34:
+    if k < 0.28:
+        return "async %d %s %s %s" % (bs, D, " ".join(fmt_rats(v) for v in type1(bs)), " ".join(fmt_rats(v) for v in type1(bs)))
+    if k < 0.38:
         return "vmax %d %s %s" % (bs, D, " ".join(fmt_rats(v) for v in type1(bs)))
     if k < 0.52:
         mode = rng.randrange(2)
@@ -468,6 +470,14 @@ CORPUS = [
     "valias 1 1/2 -2/1 5 3 3 0 1 2 3 1 0 3 2 4 0 2 1 2 0 1 2 1 0 2 2 1 1 0 2 1 0 2 0 1 1 1 1 1 2 1 0 2 0 1 2 1 0 3 5/1 7/1 1/1 3 7/1 5/1 2/1 2 -3/1 5/1",
     "valias 2 1/2 -2/1 5 3 3 0 1 2 3 1 0 3 2 4 0 2 1 2 0 1 2 1 0 2 2 1 1 0 2 1 0 2 0 1 1 1 1 1 2 1 0 2 0 1 2 1 0 6 5/1 6/1 7/1 8/1 1/1 2/1 6 7/1 8/1 5/1 6/1 2/1 3/1 4 -3/1 -2/1 5/1 6/1",
     "valias 3 1/2 -2/1 5 3 3 0 1 2 3 1 0 3 2 4 0 2 1 2 0 1 2 1 0 2 2 1 1 0 2 1 0 2 0 1 1 1 1 1 2 1 0 2 0 1 2 1 0 9 5/1 6/1 7/1 7/1 8/1 9/1 1/1 2/1 3/1 9 7/1 8/1 9/1 5/1 6/1 7/1 2/1 3/1 4/1 6 -3/1 -2/1 -1/1 5/1 6/1 7/1",
+    # asynchronous reductions (dot_async / norm2sqr_async / norm2_async / *_element_async / sum|min|max_async, sqrt flag):
+    # DOFs shared by 2 and by 3 patches carry non-zero values, block sizes 1, 2, 3; tuple / power / nested gates
+    "async 1 5 3 3 0 1 2 3 1 0 3 2 4 0 2 1 2 0 1 2 1 0 2 2 1 1 0 2 1 0 2 0 1 1 1 1 1 3 5/1 -7/1 1/1 3 -7/1 5/1 2/1 2 -3/1 5/1 3 1/1 -2/1 3/1 3 -2/1 1/1 1/2 2 4/1 1/1",
+    "async 2 5 3 3 0 1 2 3 1 0 3 2 4 0 2 1 2 0 1 2 1 0 2 2 1 1 0 2 1 0 2 0 1 1 1 1 1 6 5/1 6/1 -7/1 -6/1 1/1 2/1 6 -7/1 -6/1 5/1 6/1 2/1 3/1 4 -3/1 -2/1 5/1 6/1 6 1/1 2/1 -2/1 -4/1 3/1 6/1 6 -2/1 -4/1 1/1 2/1 1/2 1/1 4 4/1 8/1 1/1 2/1",
+    "async 3 5 3 3 0 1 2 3 1 0 3 2 4 0 2 1 2 0 1 2 1 0 2 2 1 1 0 2 1 0 2 0 1 1 1 1 1 9 5/1 6/1 7/1 -7/1 -6/1 -5/1 1/1 2/1 3/1 9 -7/1 -6/1 -5/1 5/1 6/1 7/1 2/1 3/1 4/1 6 -3/1 -2/1 -1/1 5/1 6/1 7/1 9 1/1 2/1 3/1 -2/1 -4/1 -6/1 3/1 6/1 9/1 9 -2/1 -4/1 -6/1 1/1 2/1 3/1 1/2 1/1 3/2 6 4/1 8/1 12/1 1/1 2/1 3/1",
+    "casync t3 3 3 3 4 6 2 2 0 2 0 3 2 2 4 3 2 1 0 1 2 3 0 3 5 3 0 1 2 1 1 1 1 2 2 2 1 0 0 0 1 2 0 1 0 0 2 0 2 0 2 0 0 2 3 0 1 2 0 0 2 0 2 0 2 0 0 1 3 2 1 0 0 0 4 0/1 0/1 -2/1 2/1 2 -1/1 0/1 6 -7/1 8/1 -5/2 -1/1 6/1 -26/3 6 0/1 0/1 33/5 -4/1 -2/1 2/1 1 -3/4 9 4/1 -7/1 7/1 -5/4 36/1 21/1 0/1 5/1 6/1 6 -2/1 2/1 33/5 -4/1 0/1 0/1 1 -18/7 3 34/1 -4/1 0/1 4 5/1 37/5 39/1 18/1 2 -15/4 7/4 6 -1/2 0/1 -7/1 -25/4 0/1 9/1 6 5/1 37/5 6/1 31/8 39/1 18/1 1 0/1 9 -19/5 0/1 31/5 36/7 0/1 -15/4 2/1 6/1 6/1 6 39/1 18/1 6/1 31/8 5/1 37/5 1 1/1 3 -19/4 4/1 9/1",
+    "casync nest 3 4 5 2 1 6 2 3 4 1 0 1 0 5 5 1 3 0 4 2 0 3 0 1 0 3 3 2 0 2 2 1 1 1 1 0 2 3 4 2 2 0 0 1 0 2 4 2 1 1 0 0 1 0 2 2 3 2 0 1 1 0 1 0 2 0 2 2 0 0 1 0 1 0 2 1 0 0 1 0 1 0 0 0 0 1 0 2 1 0 4 0/1 -11/4 -9/1 7/1 4 19/4 0/1 -4/1 -7/1 1 6/1 3 10/1 5/1 -9/2 5 2/1 19/4 -7/1 -1/1 -4/1 4 -10/7 -3/2 0/1 -11/4 4 0/1 8/1 19/4 0/1 0 3 10/1 5/1 -9/2 3 -7/1 -21/1 -1/1 4 -8/1 9/1 15/1 8/1 4 -3/1 0/1 -5/1 6/1 1 4/1 3 10/1 5/1 -9/2 2 -7/1 -4/1 4 16/1 11/2 -30/1 31/5 4 8/1 0/1 -1/4 5/1 1 -1/1 3 -13/2 -5/1 -9/1 5 11/3 0/1 -9/7 6/1 -39/8 4 6/1 -17/1 16/1 11/2 4 -7/1 4/1 8/1 0/1 0 3 -13/2 -5/1 -9/1 3 -9/7 -4/1 6/1 4 17/2 4/1 0/1 3/1 4 2/1 5/1 -1/1 1/1 1 5/1 3 -13/2 -5/1 -9/1 2 -9/7 -39/8",
+    "casync p3 3 1 2 1 0 0 1 1 0 0 0 1 -9/2 1 4/1 1 -8/1 0 0 0 1 -3/1 1 8/1 1 -5/7 1 -3/1 1 9/1 1 9/1 0 0 0 1 1/1 1 -24/1 1 -17/3",
 ]
 
 
@@ -615,7 +625,7 @@ def composite_oracle(op, c, out):
                             return "%s: patch %d component %d dof %d comp %d = %s, expected %s over sharers %s" % (
                                 op, r, l, i, k, res[r * L + l][i * bs + k], exp, sharers[sl][g])
         return None
-    if op == "cdot":
+    if op in ("cdot", "casync"):
         xs = [[c.rats() for _ in range(L)] for _ in range(P)]
         ys = [[c.rats() for _ in range(L)] for _ in range(P)]
         X, Y = {}, {}
@@ -628,6 +638,13 @@ def composite_oracle(op, c, out):
                                 return None
         exp = sum(X[key] * Y[key] for key in X)
         o = Tk(out)
+        if op == "casync":
+            n2 = sum(X[key] * X[key] for key in X)
+            if o.tok() != "A":
+                raise ValueError("tag")
+            got = [vlib.parse_frac(o.tok()) for _ in range(3)]
+            return None if got == [exp, n2, q_sqrt(n2)] else \
+                "Gate::dot_async on %s vectors (dot, norm2sqr, norm2) = %s, undecomposed vectors give %s" % (kind, got, [exp, n2, q_sqrt(n2)])
         if o.tok() != "D":
             raise ValueError("tag")
         got = vlib.parse_frac(o.tok())
@@ -673,7 +690,7 @@ def global_oracle(op, c, out):
                 return "splitter split: patch %d = %s, restriction of the base vector is %s" % (r, res[r][:8], [base[g] for g in maps[r]][:8])
         return None
     bs = 1
-    if op in ("norm", "vmax", "vops"):
+    if op in ("norm", "vmax", "vops", "async"):
         bs = c.nat()
     if op == "vops":
         mode, a, b = c.nat(), vlib.parse_frac(c.tok()), vlib.parse_frac(c.tok())
@@ -702,6 +719,33 @@ def global_oracle(op, c, out):
                     if X.setdefault((g, k), vs[r][i * b + k]) != vs[r][i * b + k]:
                         return None
         return X
+    if op == "async":
+        xs = [c.rats() for _ in range(P)]
+        ys = [c.rats() for _ in range(P)]
+        X, Y = glob(xs), glob(ys)
+        if X is None or Y is None:
+            return None
+        d = sum(X[key] * Y[key] for key in X)
+        n2 = sum(v * v for v in X.values())
+        vals = list(X.values())
+        # this rank's part of the squared norm: every entry weighted by 1 / (number of patches sharing the DOF)
+        loc = [sum(xs[r][i * bs + k] ** 2 / len(sharers[g]) for i, g in enumerate(maps[r]) for k in range(bs)) for r in range(P)]
+        sc = [xs[r][0] for r in range(P)]
+        exp = [d, n2, q_sqrt(n2), q_sqrt(n2), P] + [q_sqrt(w) for w in loc] + \
+              [max(abs(v) for v in vals), min(abs(v) for v in vals), max(vals), min(vals),
+               sum(sc), q_sqrt(sum(t * t for t in sc)), min(sc), max(sc), q_sqrt(sum(t * t for t in sc))]
+        t = out.split()
+        if t[0] != "A":
+            raise ValueError("tag")
+        got = [vlib.parse_frac(u) for u in t[1:]]
+        if got != exp:
+            names = ["dot_async", "norm2sqr_async", "norm2_async", "Gate::dot_async(sqrt)", "#patches"] + ["local part %d" % r for r in range(P)] + \
+                    ["max_abs_element_async", "min_abs_element_async", "max_element_async", "min_element_async", "sum_async",
+                     "sum_async(sqrt)", "min_async", "max_async", "norm2 of scalars"]
+            bad = [i for i in range(min(len(got), len(exp))) if got[i] != exp[i]]
+            i = bad[0] if bad else 0
+            return "asynchronous reduction %s = %s, the undecomposed vector gives %s" % (names[i] if i < len(names) else i, got[i] if bad else len(got), exp[i])
+        return None
     if op in ("norm", "vmax"):
         xs = [c.rats() for _ in range(P)]
         X = glob(xs)
@@ -827,9 +871,9 @@ def oracle(case, out):
     c = Tk(case)
     op = c.tok()
     try:
-        if op in ("csync0", "csync1", "cdot", "cmuxjoin", "cmuxsplit"):
+        if op in ("csync0", "csync1", "cdot", "casync", "cmuxjoin", "cmuxsplit"):
             return composite_oracle(op, c, out)
-        if op in ("gred", "norm", "vmax", "vops", "valias", "gapply2", "gdiag", "gfilter", "spljoin", "splsplit"):
+        if op in ("gred", "norm", "vmax", "vops", "valias", "async", "gapply2", "gdiag", "gfilter", "spljoin", "splsplit"):
             return global_oracle(op, c, out)
         if op in ("mgather", "mscatter"):
             bs, size, mir = c.nat(), c.nat(), c.lst()
@@ -934,7 +978,7 @@ def oracle(case, out):
 def _shape(case):
     c = Tk(case)
     op = c.tok()
-    if op in ("csync0", "csync1", "cdot", "cmuxjoin", "cmuxsplit"):
+    if op in ("csync0", "csync1", "cdot", "casync", "cmuxjoin", "cmuxsplit"):
         kind = c.tok()
         n = c.nat()           # patches or children
         return op, "kind:" + kind, n, len(KINDS[kind]), True
@@ -1125,7 +1169,8 @@ def parse_mpi_out(out):
     return {t[i]: t[i + 1] for i in range(1, len(t) - 1, 2)}
 
 
-TOL = {"t_gate_sum_freq": 1e-12, "t_gate_norm2": 1e-12, "t_gate_norm2_ref": 1e-12, "t_b_nrm": 1e-14, "t_rhs_nrm": 1e-12, "t_def_init": 1e-12, "t_valias_dot": 1e-12, "t_Axpy_w2": 1e-12, "t_Axpy_alias_w2": 1e-12, "t_ATxpy_w2": 1e-12, "t_ATxpy_alias_w2": 1e-12, "t_sol_nrm": 1e-7, "t_sol_w1": 1e-7,
+TOL = {"t_async_sum": 1e-12, "t_async_sum_sqrt": 1e-12, "t_async_gnorm2": 1e-12, "t_blk_async_nrm2": 1e-12, "t_blk_nrm2": 1e-12,
+       "t_tup3_async_nrm2": 1e-12, "t_gate_sum_freq": 1e-12, "t_gate_norm2": 1e-12, "t_gate_norm2_ref": 1e-12, "t_b_nrm": 1e-14, "t_rhs_nrm": 1e-12, "t_def_init": 1e-12, "t_valias_dot": 1e-12, "t_Axpy_w2": 1e-12, "t_Axpy_alias_w2": 1e-12, "t_ATxpy_w2": 1e-12, "t_ATxpy_alias_w2": 1e-12, "t_sol_nrm": 1e-7, "t_sol_w1": 1e-7,
        "t_err_h0": 1e-6, "t_err_h1": 1e-6}
 
 
@@ -1176,6 +1221,23 @@ def make_mpi_oracle(results):
             for ka, kb in (("t_Axpy_alias_w2", "t_Axpy_w2"), ("t_ATxpy_alias_w2", "t_ATxpy_w2")):
                 if float.fromhex(o[ka]) != float.fromhex(o[kb]):
                     return "%s = %s but %s = %s on %d ranks (r aliasing y changes the result)" % (ka, o[ka], kb, o[kb], n)
+        if "x_async_dot" in o:
+            # asynchronous = synchronous, within the same run
+            pairs = (("x_async_dot", "x_x_w2"), ("x_async_gdot", "x_x_w2"), ("x_async_nrm2sqr", "x_x_x"), ("x_async_nrm2", "x_x_nrm"),
+                     ("x_async_gdot_sqrt", "x_x_nrm"), ("x_async_maxabs", "x_x_max"), ("x_async_minabs", "x_vminabs"),
+                     ("x_async_max", "x_vmax"), ("x_async_min", "x_vmin"), ("x_async_gmax", "x_gate_max"), ("x_async_gmin", "x_gate_min"),
+                     ("x_blk_async_dot", "x_blk_dot"), ("x_tup3_async_xw", "x_tup3_xw"), ("x_tup3_async_xx", "x_tup3_xx"),
+                     ("t_async_sum", "t_gate_sum_freq"), ("t_async_gnorm2", "t_gate_norm2"), ("t_blk_async_nrm2", "t_blk_nrm2"))
+            for ka, kb in pairs:
+                fa, fb = float.fromhex(o[ka]), float.fromhex(o[kb])
+                if not abs(fa - fb) <= 1e-13 * max(abs(fa), abs(fb)):
+                    return "asynchronous %s = %r but synchronous %s = %r on %d ranks" % (ka, fa, kb, fb, n)
+            fa, fb = float.fromhex(o["t_async_sum_sqrt"]) ** 2, float.fromhex(o["t_async_sum"])
+            if not abs(fa - fb) <= 1e-12 * fb:
+                return "sum_async with the sqrt flag: %r squared is not %r" % (float.fromhex(o["t_async_sum_sqrt"]), fb)
+            fa, fb = float.fromhex(o["t_tup3_async_nrm2"]) ** 2, float.fromhex(o["x_tup3_xx"])
+            if not abs(fa - fb) <= 1e-12 * fb:
+                return "tuple gate dot_async with the sqrt flag: %r squared is not %r" % (float.fromhex(o["t_tup3_async_nrm2"]), fb)
         if "t_gate_norm2" in o:
             fa, fb = float.fromhex(o["t_gate_norm2"]), float.fromhex(o["t_gate_norm2_ref"])
             if not abs(fa - fb) <= 1e-12 * abs(fb):
